@@ -98,7 +98,7 @@ func ruleErrState(p *Prog, r *RuleResult) {
 		for rb := range reach(ifi.Block().Succs[succ], nil, nil) {
 			if ret, ok := rb.Instrs[len(rb.Instrs)-1].(*ssa.Return); ok && rb != rd.Recover && retMayBeNil(ret, len(ret.Results)-1) {
 				ev, _ := errResult(c)
-				if stripConv(ret.Results[len(ret.Results)-1]) == ev {
+				if stripConv(rvals(ret)[len(ret.Results)-1]) == ev {
 					continue
 				}
 				bad = true
@@ -121,7 +121,7 @@ func ruleErrState(p *Prog, r *RuleResult) {
 			continue
 		}
 		nret++
-		cnt, ev := ret.Results[0], ret.Results[1]
+		cnt, ev := rvals(ret)[0], rvals(ret)[1]
 		key := k.key(fname, "return")
 		if definitelyNil(ev) {
 			r.info(key+" success return", p.IPos(ret))
@@ -865,7 +865,7 @@ func errEdgeReturnsError(p *Prog, r *RuleResult, f *ssa.Function, errField *type
 				continue
 			}
 			if ret, ok := rb.Instrs[len(rb.Instrs)-1].(*ssa.Return); ok {
-				ev := ret.Results[len(ret.Results)-1]
+				ev := rvals(ret)[len(ret.Results)-1]
 				nonNil := !mayBeNil(ev, 0)
 				if !nonNil {
 					// returning the tested value itself on its non-nil edge
